@@ -1184,7 +1184,7 @@ func main() {
 	}
 	v.Count("exhaustive/response_sequences", hi-lo)
 
-	nRand := args.Pick(200000, 1000000)
+	nRand := args.Pick(200000, 3000000)
 	lo, hi = args.Share(nRand)
 	for i := lo; i < hi; i++ {
 		rnd := args.CaseRand(i)
